@@ -25,7 +25,8 @@ Inductive beh :=
 | BShortOk     (* return a result of its own without calling next *)
 | BShortErr    (* return an error of its own without calling next *)
 | BAlter       (* append a token to the request, call next, append a token to an ok result *)
-| BErrAfter.   (* call next, then replace whatever came back by an error of its own *)
+| BErrAfter    (* call next, then replace whatever came back by an error of its own *)
+| BCancel.     (* call next with the context replaced by a cancelled one, return what comes back *)
 
 (* [code] is what reflect.ValueOf(h).Pointer() returns for the func value: the code
    pointer.  It is shared by all closures of one func literal and by all method values of
@@ -55,6 +56,20 @@ Inductive ev :=
 | EExit (l : layer) (i : N) (x : res)      (* ... and returns x to its caller *)
 | ECore (r : req).                         (* the published function ran with r *)
 
+(* The context a call travels with is either live or done (cancelled / deadline passed).
+   It is carried as a marker token at the head of the request: 9001 = context.Canceled,
+   9002 = context.DeadlineExceeded, which are also the error codes ctx.Err() shows as.
+   (The executor prints the same marker in front of the request tokens of an event when
+   ctx.Err() != nil there; real request tokens never start with 9001/9002.) *)
+Definition ctx_mark (r : req) : option N :=
+  match r with
+  | m :: _ => if N.eqb m 9001 || N.eqb m 9002 then Some m else None
+  | [] => None
+  end.
+Definition strip_ctx (r : req) : req := match ctx_mark r with Some _ => tl r | None => r end.
+(* context.WithCancel(ctx) + cancel(): a context already done keeps its own error *)
+Definition cancel_ctx (r : req) : req := match ctx_mark r with Some _ => r | None => 9001%N :: r end.
+
 Definition returns (x : res) : bool :=
   match x with ROk _ | RErr _ => true | _ => false end.
 
@@ -62,6 +77,7 @@ Definition pre (h : handler) (r : req) : req + res :=
   match hb h with
   | BPass | BErrAfter => inl r
   | BAlter => inl (r ++ [inst h])
+  | BCancel => inl (cancel_ctx r)
   | BShortOk => inr (ROk [(inst h + 200)%N])
   | BShortErr => inr (RErr (inst h))
   end.
@@ -105,7 +121,17 @@ Section Wrap.
   Definition chain (L : layer) (l : list handler) (core : kont) : kont :=
     fold_right (wrap L) core l.
 
-  Definition execute : kont := fun r s => (s, [ECore r], ROk (r ++ [99%N])).
+  (* Service.Execute + the published function: no look at the context *)
+  Definition execute : kont := fun r s => (s, [ECore r], ROk (strip_ctx r ++ [99%N])).
+  (* what lies between the built-in handler of a layer and the next layer.  Below the client
+     IO manager sits Client.Transport -> the transport, which selects on ctx.Done(): with a
+     context that is already done it returns ctx.Err() and the response of the service (which
+     still runs, detached) is dropped.  The other layers do not look at the context. *)
+  Definition below (L : layer) (k : kont) : kont :=
+    match L with
+    | LCO => fun r s => match ctx_mark r with Some m => (s, [], RErr m) | None => k r s end
+    | _ => k
+    end.
   Definition stuck : kont := fun r s => (s, [], RStuck).
 End Wrap.
 
@@ -302,7 +328,7 @@ Section Call.
   Fixpoint call_from (ls : list layer) : @kont S :=
     match ls with
     | [] => execute
-    | L :: ls' => fun r s => apply mid L (call_from ls') (rd L s) r s
+    | L :: ls' => fun r s => apply mid L (below L (call_from ls')) (rd L s) r s
     end.
 End Call.
 
@@ -413,7 +439,7 @@ Section SpecCall.
   Fixpoint onion_from (ls : list layer) : @kont S :=
     match ls with
     | [] => execute
-    | L :: ls' => fun r s => chain mid L (lst L s) (onion_from ls') r s
+    | L :: ls' => fun r s => chain mid L (lst L s) (below L (onion_from ls')) r s
     end.
 End SpecCall.
 
@@ -489,7 +515,7 @@ Fixpoint eval_from (ls : list layer) (snaps : list clo) : @kont unit :=
   | [] => execute
   | L :: ls' => match snaps with
                 | [] => stuck
-                | c :: snaps' => apply nomid L (eval_from ls' snaps') c
+                | c :: snaps' => apply nomid L (below L (eval_from ls' snaps')) c
                 end
   end.
 
@@ -499,7 +525,7 @@ Fixpoint onion_lists (ls : list layer) (lists : list (list handler)) : @kont uni
   | [] => execute
   | L :: ls' => match lists with
                 | [] => stuck
-                | l :: lists' => chain nomid L l (onion_lists ls' lists')
+                | l :: lists' => chain nomid L l (below L (onion_lists ls' lists'))
                 end
   end.
 
@@ -565,3 +591,26 @@ Fixpoint script_states (script : list aop) (s : sys) : list sys :=
   | [] => [s]
   | a :: r => s :: match aop_step a s with None => [] | Some s' => script_states r s' end
   end.
+
+(* ------------------------------------------------------------------ *)
+(* Several mutators on ONE manager: whatever the interleaving, the manager executes their
+   critical sections in some total order, i.e. it runs one merged operation sequence. *)
+Inductive pop := PUse (hs : list handler) | PUnuse (hs : list handler).
+Definition pop_handlers (o : pop) : list handler := match o with PUse hs | PUnuse hs => hs end.
+Definition pm_step (o : pop) (p : pm) : option pm :=
+  match o with PUse hs => pm_use hs p | PUnuse hs => pm_unuse hs p end.
+Fixpoint pm_run (ops : list pop) (p : pm) : option pm :=
+  match ops with
+  | [] => Some p
+  | o :: r => match pm_step o p with None => None | Some p' => pm_run r p' end
+  end.
+(* the same on a plain list (Unuse by code pointer, as the code does) *)
+Definition hstep (o : pop) (l : list handler) : list handler :=
+  match o with
+  | PUse hs => l ++ hs
+  | PUnuse hs => filter (fun h => negb (ptr_matches (code h) hs)) l
+  end.
+Definition hrun (ops : list pop) (l : list handler) : list handler := fold_left (fun l o => hstep o l) ops l.
+(* a mutator owns the code pointers satisfying [own] *)
+Definition is_mine (own : N -> bool) (o : pop) : bool := forallb (fun h => own (code h)) (pop_handlers o).
+Definition is_other (own : N -> bool) (o : pop) : bool := forallb (fun h => negb (own (code h))) (pop_handlers o).
